@@ -153,4 +153,31 @@ theorem castNode_never_wraps_error_call (lhsT : TyId) (rhs n : Node) (w : List S
   · rw [h2.2.2.2.2] at he; cases he
   · rw [h3.2.2.2] at he; cases he
 
+/-- a function accepted for `:conv` is not variadic: the generated call `f(x)` passes one value
+(repair of the `Join(s.X)` defect: `xs ...int` cannot take a `[]int` without `...`) -/
+theorem converter_not_variadic (env : Env) (sc : Scope) (name : String) (sig : FuncSig) (r : TyId × TyId × Bool)
+    (hl : lookupType env sc name = .func sig) (h : lookupConverterFunc env sc name = .ok r) :
+    sig.variadic = false := by
+  unfold lookupConverterFunc at h
+  rw [hl] at h
+  simp only at h
+  cases hv : sig.variadic
+  · rfl
+  · rcases hp : sig.params with _ | ⟨a, _ | ⟨b, ps⟩⟩ <;> rcases hr : sig.results with _ | ⟨x, _ | ⟨e, _ | ⟨y, rs⟩⟩⟩ <;>
+      simp [hp, hr, hv] at h
+
+/-- a function accepted as `:preprocess` / `:postprocess` hook is not variadic: the generated call
+passes each additional argument as it is -/
+theorem hook_not_variadic (env : Env) (sc : Scope) (name optName pos : String) (sig : FuncSig) (m : ManipOpt)
+    (hl : lookupType env sc name = .func sig) (h : lookupManipulatorFunc env sc name optName pos = .ok m) :
+    sig.variadic = false := by
+  unfold lookupManipulatorFunc at h
+  rw [hl] at h
+  simp only at h
+  cases hv : sig.variadic
+  · rfl
+  · split at h
+    · cases h
+    · rcases hp : sig.params with _ | ⟨a, _ | ⟨b, ps⟩⟩ <;> simp [hp, hv] at h
+
 end Convergen.Props.C01
